@@ -17,6 +17,41 @@ class HarnessError(Exception):
     pass
 
 
+CVC5_EVERY = int(os.environ.get("VERIF_CVC5_EVERY", "0"))  # 0 = off; n = re-decide every n-th final query with cvc5
+CVC5_MAX_PER_SLICE = int(os.environ.get("VERIF_CVC5_MAX", "40"))
+
+
+def cvc5_recheck(assertions, timeout_ms=10000):
+    """Second solver on the SMT-LIB2 dump of a final query (DESIGN §1.4).  Returns 'unsat' / 'sat' / 'unknown' / 'error: ...'."""
+    try:
+        import cvc5
+    except ImportError:
+        return "error: cvc5 wheel not installed"
+    s2 = z3.Solver()
+    s2.add(*assertions)
+    text = s2.to_smt2()
+    try:
+        slv = cvc5.Solver()
+        slv.setOption("tlimit-per", str(timeout_ms))
+        slv.setLogic("ALL")
+        parser = cvc5.InputParser(slv)
+        parser.setStringInput(cvc5.InputLanguage.SMT_LIB_2_6, text, "final-query")
+        sm = parser.getSymbolManager()
+        res = "unknown"
+        while True:
+            cmd = parser.nextCommand()
+            if cmd.isNull():
+                break
+            out = str(cmd.invoke(slv, sm)).strip()
+            if out in ("sat", "unsat", "unknown"):
+                res = out
+            elif out.startswith("(error"):
+                return "error: " + out[:200]
+        return res
+    except Exception as e:  # noqa: BLE001 - parse errors etc. are inconclusive, never success
+        return "error: %r" % (e,)
+
+
 class Harness:
     """A harness = ordinary Python calling real code from /repo on inputs made with core.fresh_*.
 
@@ -161,7 +196,7 @@ def explore_slice(h, sl, deadline, known_regions=(), max_cex=1, validate_every=7
         "harness": h.name, "slice": sl, "paths": 0, "reached": 0, "vacuous": 0, "queries": 0, "solver_s": 0.0,
         "undecided": 0, "exhaustive": False, "violations": [], "known_hits": [], "errors": [], "samples": [],
         "validated": 0, "validation_diverged": 0, "functions": [], "obligations": 0, "nonreplaying": 0,
-        "max_depth": 0,
+        "max_depth": 0, "cvc5_rechecked": 0, "cvc5_agree": 0, "cvc5_unknown": 0, "cvc5_disagree": 0,
     }
     profile = set() if want_profile else None
     prefix = []
@@ -171,7 +206,9 @@ def explore_slice(h, sl, deadline, known_regions=(), max_cex=1, validate_every=7
         c = run_path(h, sl, prefix, profile=profile if res["paths"] < 3 else None)
         res["paths"] += 1
         res["max_depth"] = builtins.max(res["max_depth"], c.pos)
-        if c.error:
+        # a harness that trips over the consequences of an obligation it has already recorded as false is a violation path, not an engine error
+        already_false = any(t is False for (_, t) in c.obs)
+        if c.error and not already_false:
             res["errors"].append("harness raised on a path:\n" + c.error)
         elif c.poisoned:
             res["errors"].append("poisoned path: %s" % c.poisoned)
@@ -195,6 +232,19 @@ def explore_slice(h, sl, deadline, known_regions=(), max_cex=1, validate_every=7
                           for n in known_regions if n in c.regions]
                 not_known = [z3.Not(a) for a in active]
                 r = c.check(neg, *not_known)
+                if (r == z3.unsat and CVC5_EVERY and res["cvc5_rechecked"] < CVC5_MAX_PER_SLICE and res["reached"] % CVC5_EVERY == 1 and sym_terms
+                        and not all(z3.is_true(t) for t in sym_terms)):
+                    v = cvc5_recheck(list(c.solver.assertions()) + [neg] + not_known)
+                    res["cvc5_rechecked"] += 1
+                    if v == "unsat":
+                        res["cvc5_agree"] += 1
+                    elif v == "sat":
+                        res["cvc5_disagree"] += 1
+                        res["errors"].append("solver disagreement: z3 says unsat, cvc5 says sat on a final query of %s slice %s" % (h.name, sl))
+                    else:
+                        res["cvc5_unknown"] += 1
+                        if v.startswith("error"):
+                            res.setdefault("cvc5_errors", []).append(v[:160])
                 if r == z3.unknown:
                     pass
                 elif r == z3.sat and cex_seen < max_cex:
@@ -213,7 +263,7 @@ def explore_slice(h, sl, deadline, known_regions=(), max_cex=1, validate_every=7
                                  "notes": {k: str(v) for k, v in nc.notes.items()}}
                         if nc.error:
                             entry["native_error"] = nc.error
-                        if failed_native and not nc.assumption_failed and not nc.error:
+                        if failed_native and not nc.assumption_failed:
                             res["violations"].append(entry)
                         else:
                             res["nonreplaying"] += 1
